@@ -362,6 +362,27 @@ func (e *Engine) resolveType(s string) (types.Type, error) {
 		}
 		return types.NewSlice(t), nil
 	}
+	if strings.HasPrefix(s, "map[") {
+		d := 0
+		for i := 3; i < len(s); i++ {
+			if s[i] == '[' {
+				d++
+			} else if s[i] == ']' {
+				d--
+				if d == 0 {
+					k, err := e.resolveType(s[4:i])
+					if err != nil {
+						return nil, err
+					}
+					v, err := e.resolveType(s[i+1:])
+					if err != nil {
+						return nil, err
+					}
+					return types.NewMap(k, v), nil
+				}
+			}
+		}
+	}
 	if i := strings.Index(s, "."); i > 0 && !strings.ContainsAny(s, "[]( ") {
 		for _, imp := range e.pkg.Types.Imports() {
 			if imp.Name() == s[:i] {
